@@ -13,12 +13,17 @@ import (
 	"os"
 	"sort"
 	"strconv"
+	"time"
 
+	"github.com/synnaxlabs/aspen/internal/cluster"
 	"github.com/synnaxlabs/aspen/internal/cluster/gossip"
+	"github.com/synnaxlabs/aspen/internal/cluster/pledge"
 	"github.com/synnaxlabs/aspen/internal/cluster/store"
 	"github.com/synnaxlabs/aspen/internal/node"
 	"github.com/synnaxlabs/freighter/mock"
 	"github.com/synnaxlabs/x/address"
+	xkv "github.com/synnaxlabs/x/kv"
+	"github.com/synnaxlabs/x/kv/memkv"
 	"github.com/synnaxlabs/x/version"
 )
 
@@ -40,12 +45,14 @@ type op struct {
 
 type tcase struct {
 	ID    int        `json:"id"`
+	Kind  string     `json:"kind"` // "" (scripted gossip) | "lifecycle" (cluster.Open restarts over persisted storage)
 	Nodes []nodeInit `json:"nodes"`
 	Ops   []op       `json:"ops"`
 }
 
 type result struct {
 	ID    int                   `json:"id"`
+	Init  []map[string]any      `json:"init,omitempty"`
 	Outs  [][]map[string]any    `json:"outs"`
 	Errs  []string              `json:"errs"`
 	Panic *string               `json:"panic"`
@@ -76,7 +83,85 @@ func dump(keys []uint32, stores map[uint32]store.Store) []map[string]any {
 	return out
 }
 
+// runLifecycle opens a one-node cluster over a memkv store with cluster.Open and restarts it once per
+// op: "restart" after a clean Close, "crash" from an image of the storage taken while the previous run was
+// still alive (whatever Close writes afterwards is lost). It records the host's record after every start.
+func runLifecycle(c tcase) (res result) {
+	res.ID = c.ID
+	defer func() {
+		if r := recover(); r != nil {
+			s := fmt.Sprint(r)
+			res.Panic = &s
+		}
+	}()
+	ctx := context.Background()
+	gossipNet := mock.NewNetwork[gossip.Message, gossip.Message]()
+	pledgeNet := mock.NewNetwork[pledge.Request, pledge.Response]()
+	storageKey := []byte("verif-c12-cluster-state")
+	addr := addrOf(1)
+	open := func(db xkv.DB) *cluster.Cluster {
+		cl, err := cluster.Open(ctx, cluster.Config{
+			HostAddress: addr,
+			Pledge: pledge.Config{
+				Peers:           []address.Address{},
+				TransportClient: pledgeNet.UnaryClient(),
+				TransportServer: pledgeNet.UnaryServer(addr),
+			},
+			Gossip: gossip.Config{
+				TransportClient: gossipNet.UnaryClient(),
+				TransportServer: gossipNet.UnaryServer(addr),
+				Interval:        time.Hour,
+			},
+			Storage:              db,
+			StorageKey:           storageKey,
+			StorageFlushInterval: cluster.FlushOnEvery,
+		})
+		if err != nil {
+			panic(err)
+		}
+		return cl
+	}
+	dumpHost := func(cl *cluster.Cluster) []map[string]any {
+		h := cl.Host()
+		return []map[string]any{{"node": uint32(h.Key), "view": [][]uint32{{uint32(h.Key), h.Heartbeat.Generation, h.Heartbeat.Version, uint32(h.State), addrNum(h.Address)}}}}
+	}
+	db := memkv.New()
+	run := open(db)
+	res.Init = dumpHost(run)
+	for _, o := range c.Ops {
+		errS := ""
+		if o.Op == "crash" {
+			image, closer, err := db.Get(ctx, storageKey)
+			var cp []byte
+			if err == nil {
+				cp = append([]byte(nil), image...)
+				_ = closer.Close()
+			}
+			ndb := memkv.New()
+			if err == nil {
+				if e := ndb.Set(ctx, storageKey, cp); e != nil {
+					errS = e.Error()
+				}
+			}
+			_ = run.Close() // its last words go to the old store and are lost
+			db = ndb
+		} else {
+			if err := run.Close(); err != nil {
+				errS = err.Error()
+			}
+		}
+		run = open(db)
+		res.Outs = append(res.Outs, dumpHost(run))
+		res.Errs = append(res.Errs, errS)
+	}
+	_ = run.Close()
+	return res
+}
+
 func runCase(c tcase) (res result) {
+	if c.Kind == "lifecycle" {
+		return runLifecycle(c)
+	}
 	res.ID = c.ID
 	defer func() {
 		if r := recover(); r != nil {
